@@ -331,9 +331,10 @@ move_thread_to_final(const char *src, const char *dst)
 	return 0;
 }
 
-/* Moves the files "stream.*" from thdir to thdir_final. */
+/* Moves the files "stream.*" from thdir to thdir_final. The metadata in
+ * stream.json is only moved when only_json is set, otherwise is skipped. */
 static int
-move_stream_files(const char *thdir, const char *thdir_final)
+move_stream_files(const char *thdir, const char *thdir_final, int only_json)
 {
 	DIR *dir;
 	int ret = 0;
@@ -348,6 +349,10 @@ move_stream_files(const char *thdir, const char *thdir_final)
 	while ((dirent = readdir(dir)) != NULL) {
 		/* It should only contain stream.* directories, skip others */
 		if (strncmp(dirent->d_name, prefix, strlen(prefix)) != 0)
+			continue;
+
+		int is_json = (strcmp(dirent->d_name, "stream.json") == 0);
+		if (is_json != only_json)
 			continue;
 
 		char thread[PATH_MAX];
@@ -382,7 +387,11 @@ move_stream_files(const char *thdir, const char *thdir_final)
 static void
 move_thdir_to_final(const char *thdir, const char *thdir_final)
 {
-	if (move_stream_files(thdir, thdir_final) != 0) {
+	/* Move the metadata last, as it marks the stream as finished: it must
+	 * only appear in the final directory once the rest of the stream is
+	 * complete there. */
+	if (move_stream_files(thdir, thdir_final, 0) != 0
+			|| move_stream_files(thdir, thdir_final, 1) != 0) {
 		/* The files that could not be moved are kept in thdir */
 		die("errors occurred when moving the thread dir %s to %s",
 				thdir, thdir_final);
